@@ -4,10 +4,10 @@
 
 package model
 
-//@ spec suffixOK(m *SuffixDataModel, algs []uint) bool
-//@ spec suffixOf(m *SuffixDataModel, algs []uint) string
+// the unique suffix is the multihash (first configured algorithm) of the canonical form of the suffix data
+//@ spec suffixOK(m *SuffixDataModel, algs []uint) bool { len(algs) > 0 && jcsOK(boxed(m)) && supported(algs[0]) }
+//@ spec suffixOf(m *SuffixDataModel, algs []uint) string { modelMH(boxed(m), algs[0]) }
 //@ func GetUniqueSuffix
-//@   trusted
 //@   results s, err
 //@   ensures (err == nil) == suffixOK(model, algs)
 //@   ensures err == nil ==> s == suffixOf(model, algs)
